@@ -86,7 +86,7 @@ def gen_cache(rng, nops):
         for _ in range(nops):
             x = rng.random()
             if x < 0.45:
-                lines.append("ins %d %d" % (rng.randrange(uni), rng.randrange(-50, 50)))
+                lines.append("ins %d %d" % (rng.randrange(uni), rng.randrange(0, 100)))
             elif x < 0.95:
                 lines.append("get %d" % rng.randrange(uni))
             else:
@@ -396,6 +396,15 @@ def run_property(pid, tier, seed, spec):
         "suites": dict(Counter(n.split("-")[0] for (n, _, _) in items)),
         "run_s": round(time.time() - t0, 1),
     }
+    if pid in ("C17", "C18", "C19"):
+        import coqeval
+        try:
+            cov["coq_cross_checked"] = coqeval.cross_check_standalone([it for it in items if it[0].startswith("gen-")], wdir, 3 if tier == "quick" else 12)
+        except Exception as e:
+            cov["coq_cross_checked"] = {"checked": 0, "error": repr(e)[:300]}
+        if cov["coq_cross_checked"].get("mismatch"):
+            diffs.append({"replay": cov["coq_cross_checked"]["mismatch"], "history": "coq-cross-check",
+                          "what": "extracted OCaml model and in-kernel vm_compute evaluation disagree: " + cov["coq_cross_checked"].get("detail", "")})
     for f in glob.glob(os.path.join(wdir, "shrink-*.hist")):
         os.remove(f)
     return cov
